@@ -96,23 +96,35 @@ Qed.
 
 (* ---- glyph-range splitting ------------------------------------------------ *)
 
-Lemma trim_hyphens_suffix : forall l, exists n, l = repeat 45%N n ++ trim_hyphens l.
-Proof.
-  induction l as [|b t [n IH]]; [exists 0; reflexivity|].
-  cbn [trim_hyphens]. destruct (nbeq b 45) eqn:E.
-  - apply N.eqb_eq in E. subst. exists (S n). simpl. rewrite <- IH. reflexivity.
-  - exists 0. reflexivity.
-Qed.
-
-(* The node try_split_range builds spells the name back exactly when the split
-   point is a single hyphen. *)
-Definition single_hyphen_at (txt : list byte) (idx : nat) : Prop :=
-  trim_hyphens (skipn idx txt) = skipn (S idx) txt.
-
-(* the glyph map never makes try_split_range succeed on a doubled hyphen *)
+(* what the sink needs of the glyph map: the node try_split_range builds spells
+   the name it was given *)
 Definition gm_lossless (gm : option (list byte -> bool)) : Prop :=
   forall contains txt node,
     gm = Some contains -> try_split_range contains txt = Some node -> flatten node = txt.
+
+Lemma skipn_cons_nth : forall (l : list N) i, i < length l -> skipn i l = nth i l 0%N :: skipn (S i) l.
+Proof.
+  induction l as [|b r IH]; intros i Hi; [simpl in Hi; lia|].
+  destruct i; [reflexivity|]. simpl. apply IH. simpl in Hi. lia.
+Qed.
+
+(* head ++ "-" ++ tail[1..] is the name: exactly one hyphen is taken out *)
+Lemma try_split_lossless : forall contains txt node,
+  try_split_range contains txt = Some node -> flatten node = txt.
+Proof.
+  intros contains txt node H. unfold try_split_range in H.
+  destruct (filter (split_ok contains txt) (seq 0 (length txt))) as [|idx [|j r]] eqn:F; try discriminate.
+  injection H as H; subst node.
+  assert (In idx (filter (split_ok contains txt) (seq 0 (length txt)))) as Hin by (rewrite F; left; reflexivity).
+  apply filter_In in Hin as [Hs Hok]. apply in_seq in Hs.
+  unfold split_ok in Hok. apply andb_true_iff in Hok as [Hok _]. apply andb_true_iff in Hok as [Hh _].
+  apply N.eqb_eq in Hh. unfold nthb in Hh.
+  unfold mk_node. rewrite flatten_node. cbn [flatten_all flatten]. rewrite app_nil_r. cbn [app].
+  rewrite <- (firstn_skipn idx txt) at 3. rewrite (skipn_cons_nth txt idx) by lia. rewrite Hh. reflexivity.
+Qed.
+
+Lemma gm_all_lossless : forall gm, gm_lossless gm.
+Proof. intros gm c txt node _ H. eapply try_split_lossless; eauto. Qed.
 
 Lemma gm_none_lossless : gm_lossless None.
 Proof. intros c t n H. discriminate. Qed.
